@@ -680,7 +680,12 @@ impl Hypercore {
     loop 2:
         invariant
             !storage.failed@, bitfield.wf(), storage.journal@.len() <= old_journal_len + 2,
-            tree.length == replay_len(len0, entries@, it_e.index@ as int), tree.fork == replay_fork(fork0, entries@, it_e.index@ as int)
+            tree.length == replay_len(len0, entries@, it_e.index@ as int), tree.fork == replay_fork(fork0, entries@, it_e.index@ as int),
+            forall|j: int| 0 <= j < it_n.index@ ==> tree.unflushed@.contains_key((#[trigger] entry.tree_nodes@[j]).index)
+    before `if let Some(bitfield_update) = &entry.bitfield {`:
+        // C01 / C03: every tree node stored in a pending entry is restored on reopen, whether or not the entry carries a tree
+        // upgrade (a block received without an upgrade is logged as nodes + bitfield update only)
+        assert(forall|j: int| 0 <= j < entry.tree_nodes@.len() ==> tree.unflushed@.contains_key((#[trigger] entry.tree_nodes@[j]).index));
     first:
         let ghost old_journal_len = storage.journal@.len();
     before `for entry in it_e: entries.iter() {`:
